@@ -3,7 +3,7 @@
  * (bl_count / next_code / codes in symbol order), bit-reversed the way ISA-L stores codes.
  * Over-subscription must be rejected exactly when the Kraft sum exceeds 1.
  *
- * H_DYNPREFIX: the decidable prefix of setup_dynamic_header through read_header: BFINAL/BTYPE=10,
+ * H_DYNPREFIX: the decidable prefix of setup_dynamic_header through read_header: BFINAL/BTYPE=10 (or 11),
  * HLIT, HDIST, HCLEN on 3 arbitrary bytes: HLIT > 29 or HDIST > 29 => ISAL_INVALID_BLOCK, otherwise the
  * code-length-code lengths run out of input => ISAL_END_INPUT; differential against rfc1951.h. */
 #include "harness/inflate_common/inflate_common.h"
@@ -89,7 +89,8 @@ harness(void)
         VERIF_INPUTS();
         uint8_t out[8], ref_out[8];
         struct rfc_res r;
-        VASSUME(((I.in[0] >> 1) & 3) == 2); /* BTYPE = 10, BFINAL arbitrary */
+        unsigned btype = (I.in[0] >> 1) & 3;
+        VASSUME(btype >= 2); /* BTYPE = 10 or the reserved 11, BFINAL arbitrary */
         rfc1951_inflate(I.in, 3, 0, ref_out, 8, 0, 0, &r);
         isal_inflate_init(&st);
         st.next_in = I.in;
@@ -99,7 +100,10 @@ harness(void)
         int ret = read_header(&st);
         uint32_t hlit = (I.in[0] >> 3) & 0x1f, hdist = (I.in[1]) & 0x1f;
         VASSERT(hlit == ((uint32_t) (I.in[0] >> 3)), "oracle sanity");
-        if (hlit > 29 || hdist > 29) {
+        if (btype == 3) {
+                VASSERT(ret == ISAL_INVALID_BLOCK, "reserved BTYPE=11 => ISAL_INVALID_BLOCK, whatever follows");
+                VASSERT(r.status == RFC_BAD_BTYPE, "reference agrees: bad block type");
+        } else if (hlit > 29 || hdist > 29) {
                 VASSERT(ret == ISAL_INVALID_BLOCK, "HLIT > 29 or HDIST > 29 => ISAL_INVALID_BLOCK");
                 VASSERT(r.status == RFC_BAD_HEADER, "reference agrees: bad header");
         } else {
